@@ -823,6 +823,11 @@ class ExprMixin:
             st = st.assume(z3.Not(opt_isnone(cont)))
             cont = opt_val(cont)
             t = cont.t
+        if isinstance(t, (TSet, TMap)) and isinstance(a.t, TOpt) and not isinstance(t.elem if isinstance(t, TSet) else t.k, TOpt):
+            # None is never a member of a container of non-optional elements
+            for st1, c in self.contains(st, opt_val(a), cont, node):
+                yield st1, z3.And(z3.Not(opt_isnone(a)), c)
+            return
         if isinstance(t, TSet):
             try:
                 a2 = coerce(a, t.elem)
